@@ -381,6 +381,13 @@ pub fn swarm(prop: &str, seed: u64) -> (GenCfg, Suffix, Shape) {
         c.recycle = true;
         c.quarantine = false;
     }
+    // fault kind planted by the client itself: a RefLock write guard leaked by safe code
+    // (`mem::forget(g.borrow_mut(mc))`). Every later trace of that lock unwinds; what the lock
+    // holds stays reachable all the same.
+    if matches!(prop, "C01" | "C07" | "C11") && r.chance(1, 8) {
+        c.w_op[OW_LEAK] = 2;
+        c.kinds.push((KindChoice::Fixed(Kind::Leaky), 6));
+    }
     // thorough tier: one run in 24 is a long one over a large graph (queue and table growth, many
     // cycles in one history, pacing far from its start-up transient)
     if shape == Shape::Free && thorough_tier() && !cfg!(miri) && r.chance(1, 24) {
